@@ -81,14 +81,19 @@ def shards(tier, seed):
         jobs += [(alg, N) for alg in ALGS for N in rng.sample(range(44, 301), 6)]
         jobs = sorted(set(jobs))
     nsh = 16 if tier == "quick" else 48
-    # balance by N^3
-    jobs.sort(key=lambda t: -t[1])
+    # balance by N^3; all algorithms of one N run in the SAME process, in an N-dependent order (nothing may be shared between two
+    # grids of equal size)
+    byN = {}
+    for alg, N in jobs:
+        byN.setdefault(N, []).append(alg)
     buckets = [[] for _ in range(nsh)]
     load = [0] * nsh
-    for alg, N in jobs:
+    for N in sorted(byN, reverse=True):
         k = load.index(min(load))
-        buckets[k].append([alg, N])
-        load[k] += N ** 3 + 20000
+        algs = sorted(byN[N])
+        algs = algs[N % len(algs):] + algs[:N % len(algs)]
+        buckets[k].extend([a, N] for a in algs)
+        load[k] += len(algs) * (N ** 3 + 20000)
     out = [{"jobs": b} for b in buckets if b]
     if tier == "thorough":
         out.append({"kind": "repo_tests", "modules": ["tests/test_voronoi.py", "tests/test_rotobj.py", "tests/test_utils.py"], "jobs": []})
